@@ -646,7 +646,7 @@ OP_WEIGHTS = [
     ('resize_server', 2), ('alloc', 3), ('group', 4), ('group_remove', 1),
     ('blacklist', 3), ('renew', 2), ('unschedule', 2), ('advance', 8),
     ('tick', 1), ('cycle', 26), ('probe', 0), ('reload_cell', 2),
-    ('add_pod', 1),
+    ('add_pod', 1), ('lease_squeeze', 2),
 ]
 
 
@@ -657,6 +657,7 @@ class Generator:
         self.config = config
         self.rng = streams.get('gen')
         self.napps = 0
+        self.follow = []
         self.nsrv = len(config['servers'])
         self.weights = [(k, w * config['wmul'].get(k, 1.0))
                         for k, w in OP_WEIGHTS]
@@ -666,6 +667,8 @@ class Generator:
 
     def next_op(self, world):
         rng = self.rng
+        if self.follow:
+            return self.follow.pop(0)
         for _ in range(20):
             kind = rngmod.weighted(rng, self.weights)
             op = getattr(self, 'g_' + kind)(world)
@@ -730,6 +733,39 @@ class Generator:
         if not names:
             return None
         return self.rng.choice(names)
+
+    def g_lease_squeeze(self, world):
+        """A running leased instance whose server is by now too close to its
+        reboot for a NEW lease, and a higher-priority sibling of the same
+        shape arriving: the sibling cannot be placed, the running one must
+        stay (targeted: eviction followed by a restore that must happen)."""
+        rng = self.rng
+        cands = []
+        for name in sorted(world.cell.apps):
+            app = world.cell.apps[name]
+            srv = world.servers.get(app.server) if app.server else None
+            if app.lease and srv is not None and \
+                    srv.state is scheduler.State.up and srv.valid_until:
+                cands.append((name, app, srv))
+        if not cands:
+            return None
+        name, app, srv = rng.choice(cands)
+        spec = dict(world.truth.apps[name])
+        now = world.clock.peek()
+        dt = srv.valid_until - app.lease - now + rng.choice([1.0, 60.0, 3600.0])
+        self.napps += 1
+        sibling = {'op': 'add_app', 'name': 'a%d' % self.napps,
+                   'prio': min(100, app.priority + rng.choice([1, 10])),
+                   'demand': [max(0.0, d - rng.choice([0.0, 0.0, 1.0]))
+                              for d in spec['demand']],
+                   'aff': spec['aff'], 'drt': spec['drt'],
+                   'lease': spec['lease'], 'group': None,
+                   'traits': spec['traits'], 'once': False,
+                   'alloc': list(spec['alloc'])}
+        self.follow.extend([sibling, {'op': 'cycle'}])
+        if dt > 0:
+            return {'op': 'advance', 'dt': round(dt, 3)}
+        return self.follow.pop(0)
 
     def g_remove_app(self, world):
         name = self._some_app(world)
